@@ -710,9 +710,11 @@ static void sched_child(const void *job, size_t n) {
 #endif
 	sg = g; sa = &args[ai];
 	queue_change_batch();
+	vs_unlock_points = 1;       /* a getter that still reads shared data after dropping the lock: the stretch up to its next acquisition must be interruptible */
 	vs_window(1);
 	int t = vs_spawn(sched_getter, NULL); vs_join_tid(t); hx_quiesce();
 	vs_window(0);
+	vs_unlock_points = 0;
 	drain_san("sanitizer-in-getter-under-concurrent-updates", "call");
 	emit_outcome(&SF);
 	hx_emit_ledger_violations("C17");
